@@ -51,7 +51,9 @@ Applicable(shape, ft) ==
 Meaningful(ft) ==     \* the fault kind makes sense for the tag
     ft.sec = "none" \/ ft.kind \in {"omit", "empty", "text", "huge"} \/
     (FaultTag(ft).kind = "num" /\ ft.kind \in {"neg", "zero", "inf"}) \/
-    (FaultTag(ft).kind = "int" /\ ft.kind \in {"neg", "zero"})          \* INF in an integer id is a non-numeric value: C17
+    (FaultTag(ft).kind = "int" /\ ft.kind \in {"neg", "zero"}) \/       \* INF in an integer id is a non-numeric value: C17
+    \* a value exactly ON the one threshold that relates two tags: a sampling period equal to the time step (one file per iteration)
+    (ft.kind = "eqstep" /\ ft.sec = "num" /\ FaultTag(ft).name = "sampling_period")
 
 \* Verdict: "reject" = parameter_reader_exception required; "accept" = the structures must carry the values; "either" = undocumented
 Verdict(ft) ==
@@ -62,6 +64,7 @@ Verdict(ft) ==
     \* an overflowing number: out of range for a real-valued tag; an integer / boolean tag reads its leading digits
     ELSE IF ft.kind = "huge" THEN (IF FaultTag(ft).kind = "str" THEN "accept" ELSE IF FaultTag(ft).kind = "num" THEN "reject" ELSE "either")
     ELSE IF ft.kind = "empty" THEN "reject"
+    ELSE IF ft.kind = "eqstep" THEN "accept"       \* S >= dt is the admissible range (C19 is quantified over it), equality included
     ELSE LET tg == FaultTag(ft) IN
          IF ft.kind = "neg"  THEN (IF tg.rule \in {"pos", "nonneg"} THEN "reject" ELSE "accept")
          ELSE IF ft.kind = "zero" THEN (IF tg.rule = "pos" THEN "reject" ELSE IF tg.name = "damping_coefficient" THEN "either" ELSE "accept")
@@ -70,7 +73,8 @@ Verdict(ft) ==
 \* value expected in the field of a tag instance when the file is accepted: a token, -token (neg), 0 (zero), "inf"
 FieldValue(ft, sec, c, f, t) ==
     IF ft.sec = sec /\ ft.t = t /\ (sec = "num" \/ ft.c = c) /\ (sec # "face" \/ ft.f = f)
-    THEN (IF ft.kind = "neg" THEN -Token(sec, c, f, t) ELSE IF ft.kind = "zero" THEN 0 ELSE IF ft.kind = "inf" THEN -1000000 ELSE Token(sec, c, f, t))
+    THEN (IF ft.kind = "neg" THEN -Token(sec, c, f, t) ELSE IF ft.kind = "zero" THEN 0 ELSE IF ft.kind = "inf" THEN -1000000
+          ELSE IF ft.kind = "eqstep" THEN Token("num", 0, 0, 6) ELSE Token(sec, c, f, t))
     ELSE Token(sec, c, f, t)
 Inf == -1000000
 
